@@ -75,6 +75,8 @@ type Thread struct {
 	Name     string
 	Harness  bool // spawned by harness via vrt.Go
 	IsTimer  bool
+	VisDone  int // visible operations performed so far (saturating at 1 for state identity)
+	FireNo   int // for timer callback threads: which firing (1-based) started this thread
 	Quiescing bool
 	OthersStepped bool // some other thread took a visible step since this thread last slept
 	HasSlept bool
@@ -153,6 +155,8 @@ type State struct {
 	Cur     int
 	Clock   *Term
 	Timers  []TimerRec
+	TotalFires int
+	FiresChecked int // timer callbacks that have performed their first synchronisation operation (their expiry check)
 	Log     *logNode // nondet inputs in call order
 	Facets  *strNode
 	Sched   *schedNode
